@@ -14,7 +14,7 @@ import (
 )
 
 var c10Families = []string{"valid", "mutated", "bytes", "natural-join", "union-chain", "cte-cycle", "brackets", "quotes", "from-path", "parallel-fail", "bg-fail", "await", "distinct-subq-star",
-	"object-compare", "group-object", "limit-weird", "deep-nesting", "doc-shape", "native-types", "nil-doc", "vars-nil", "selector-in-sql", "parallel-fresh", "reexec", "parallel-vars", "many-inner", "marker-select"}
+	"object-compare", "group-object", "limit-weird", "deep-nesting", "doc-shape", "native-types", "nil-doc", "vars-nil", "selector-in-sql", "parallel-fresh", "reexec", "parallel-vars", "many-inner", "marker-select", "nested-slots", "parallel-many-fail"}
 
 func init() {
 	floor := []string{}
@@ -389,6 +389,46 @@ func c10Build(c *fw.Case) c10Case {
 		cs.doc = map[string]any{"mm": mm}
 		cs.sql = gen.Pick(c.R, []string{"SELECT * FROM mm", "SELECT a, ASYNC.VBG(s1) AS w FROM mm", "SELECT a, AWAIT(ASYNC.VBG(s1)) AS w FROM mm", "SELECT *, (a + 1) AS c FROM mm WHERE a >= 3", "SELECT a, (SELECT b FROM dual) AS q FROM mm"})
 		cs.opts = OptSet{Idiomatic: c.Chance(0.3)}
+	case "nested-slots":
+		// a column whose pending result is a chain of several pending results
+		cs.bg = true
+		cs.sql = gen.Pick(c.R, []string{
+			"SELECT AWAIT(AWAIT(ASYNC.VBG(n1))) AS s FROM t1",
+			"SELECT AWAIT(AWAIT(AWAIT(ASYNC.VBG(s1)))) AS s, rid FROM t1",
+			"SELECT ASYNC.VBG(ASYNC.VBG(ASYNC.VBG(n1))) AS s FROM t1",
+			"SELECT ASYNC.VBG(ASYNC.VBG(ASYNC.VBG(ASYNC.VBG(s1)))) AS s FROM t1 WHERE n1 >= 0",
+			"SELECT x.s FROM (SELECT AWAIT(AWAIT(ASYNC.VBG(n1))) AS s FROM t1) x",
+			"SELECT rid, FUSE((SELECT AWAIT(AWAIT(ASYNC.VBG(n1))) AS s FROM dual)) FROM t1",
+			"SELECT ASYNC.FIRST(ARRAY(ASYNC.LAST(ARRAY(ASYNC.VBG(n1))))) AS s FROM t1",
+			"WITH q AS (SELECT AWAIT(ASYNC.VBG(AWAIT(ASYNC.VBG(n1)))) AS s FROM t1) SELECT s FROM q",
+		})
+		if c.Chance(0.3) {
+			cs.faultK, cs.mode = 1+c.Intn(3), int32(1+c.Intn(4))
+		}
+	case "parallel-many-fail":
+		// a PARALLEL join with hundreds of key groups whose ON fails (or
+		// panics) for every one of them, for most, or for a handful
+		n := 130 + c.Intn(200)
+		failing := gen.Pick(c.R, []int{n, n, n - 1, 129, 5, 0})
+		lt := make([]any, n)
+		for i := range lt {
+			row := map[string]any{"k": float64(i), "ok": true, "z": 1.0}
+			if i < failing {
+				// a dirty column: a string where a boolean is needed, NULL where a function needs a value
+				row["ok"], row["z"] = "yes", nil
+			}
+			lt[i] = row
+		}
+		c.R.Shuffle(len(lt), func(i, j int) { lt[i], lt[j] = lt[j], lt[i] })
+		rt := make([]any, 1+c.Intn(n))
+		for i := range rt {
+			rt[i] = map[string]any{"k": float64(c.Intn(n))}
+		}
+		cs.doc = map[string]any{"lt": lt, "rt": rt}
+		j := gen.Pick(c.R, []string{"PARALLEL JOIN", "PARALLEL LEFT JOIN", "PARALLEL HASH_JOIN", "PARALLEL STRAIGHT_JOIN", "PARALLEL LEFT HASH_JOIN"})
+		on := gen.Pick(c.R, []string{"x.k = y.k AND NOT x.ok", "x.k >= y.k AND x.ok", "x.k = y.k AND RAISE_WHEN(x.ok, 'dirty')", "x.k = y.k AND VPANICNULL(x.z)", "x.k <= y.k OR VPANICNULL(x.z)", "x.k = y.k AND IF(TO_LOWER(x.z) = 'a', TRUE, FALSE)"})
+		cs.sql = "SELECT x.k AS l, y.k AS r FROM lt x " + j + " rt y ON " + on
+		cs.opts = OptSet{}
 	case "marker-select":
 		// the back-navigation marker selected as a value and carried through
 		// the stages that fingerprint, compare or sort whole rows
